@@ -43,47 +43,47 @@ type Ghost struct {
 }
 
 type FuncContract struct {
-	Name      string // as written: "BinarySearch", "(*Gengine).Execute", "(*Gengine).ExecuteConcurrent$1"
-	PkgPath   string // package the block belongs to (from file); for extern: from name
-	Extern    bool
-	Iface     bool
-	Props     []string
-	Arith     string // "int" or "bv"
-	Requires  []*Clause
-	Ensures   []*Clause
-	EnsuresA  []*Clause // ensures_always
-	NoPanic   *Clause
-	AlsoProps []string
-	NoPanicOwn *Clause
-	MergeJoins bool // merge symbolic states at join points instead of enumerating paths
-	Modifies  []string
-	ModSet    bool // a modifies clause was given
-	Ghosts    []*Ghost
-	Loops     map[int][]*Clause
-	OnCalls   []*OnCall
-	Assumes   []*Clause
-	Pure      bool
-	Fresh     bool   // extern: result is a freshly allocated reference
-	PanicsUnl *Expr  // extern: panics unless this holds
-	Task      string // closure run by `go`: expression naming the WaitGroup it joins ("" if none)
-	IsTask    bool
-	PanicSafe bool // if the function panics, no pre-existing state has been modified (checked: writes to pre-existing state are the last thing it does)
-	EnsuresT  []*Clause // trusted postconditions: assumed by callers, not proved here (listed in the evidence)
-	Recoverer bool // a deferred closure that calls recover() and thereby stops a panic
-	Recovers  bool // declares: installs a recovering defer before any panicking instruction (checked structurally)
-	Hints     map[string][]*Clause // "call:<pattern>" -> lemma clauses asserted+assumed before that call
-	File      string
-	Line      int
-	Trusted   string // reason, if the block is assumed rather than verified
-	MayPanic  bool   // extern: may panic (arbitrary user code)
-	Returns   *Expr    // pure closure: the expression it returns (checked as ensures result == e)
-	Guards    [][2]*Expr
-	GuardFields []string
+	Name            string // as written: "BinarySearch", "(*Gengine).Execute", "(*Gengine).ExecuteConcurrent$1"
+	PkgPath         string // package the block belongs to (from file); for extern: from name
+	Extern          bool
+	Iface           bool
+	Props           []string
+	Arith           string // "int" or "bv"
+	Requires        []*Clause
+	Ensures         []*Clause
+	EnsuresA        []*Clause // ensures_always
+	NoPanic         *Clause
+	AlsoProps       []string
+	NoPanicOwn      *Clause
+	MergeJoins      bool // merge symbolic states at join points instead of enumerating paths
+	Modifies        []string
+	ModSet          bool // a modifies clause was given
+	Ghosts          []*Ghost
+	Loops           map[int][]*Clause
+	OnCalls         []*OnCall
+	Assumes         []*Clause
+	Pure            bool
+	Fresh           bool   // extern: result is a freshly allocated reference
+	PanicsUnl       *Expr  // extern: panics unless this holds
+	Task            string // closure run by `go`: expression naming the WaitGroup it joins ("" if none)
+	IsTask          bool
+	PanicSafe       bool                 // if the function panics, no pre-existing state has been modified (checked: writes to pre-existing state are the last thing it does)
+	EnsuresT        []*Clause            // trusted postconditions: assumed by callers, not proved here (listed in the evidence)
+	Recoverer       bool                 // a deferred closure that calls recover() and thereby stops a panic
+	Recovers        bool                 // declares: installs a recovering defer before any panicking instruction (checked structurally)
+	Hints           map[string][]*Clause // "call:<pattern>" -> lemma clauses asserted+assumed before that call
+	File            string
+	Line            int
+	Trusted         string // reason, if the block is assumed rather than verified
+	MayPanic        bool   // extern: may panic (arbitrary user code)
+	Returns         *Expr  // pure closure: the expression it returns (checked as ensures result == e)
+	Guards          [][2]*Expr
+	GuardFields     []string
 	GuardFieldLocks []*Expr
-	GuardSrc  []string
+	GuardSrc        []string
 	LoopWritesWhole []string
-	LoopWrites []*Expr  // pre-existing maps/arrays that loops of this function may write (excluded from row preservation)
-	Entry     []string // entry assumptions justified by meta-arguments (e.g. nolocks)
+	LoopWrites      []*Expr  // pre-existing maps/arrays that loops of this function may write (excluded from row preservation)
+	Entry           []string // entry assumptions justified by meta-arguments (e.g. nolocks)
 }
 
 type PredDef struct {
@@ -95,15 +95,15 @@ type PredDef struct {
 }
 
 type Contracts struct {
-	Funcs   map[string]*FuncContract // key: pkgpath + "." + Name  (for methods: pkgpath.(*T).M)
-	Preds   map[string]*PredDef
-	Globals []*Clause // global assumptions (axioms), listed in trusted base
-	Files   []string
-	Decls   map[string]string // pkgpath.Type.field -> declaration (guarded_by L / immutable / owner)
-	DeclsRaw map[string]string
-	Frames  map[string][]string
-	Templates map[string]*Template
-	LockInvs  map[string]*Clause
+	Funcs      map[string]*FuncContract // key: pkgpath + "." + Name  (for methods: pkgpath.(*T).M)
+	Preds      map[string]*PredDef
+	Globals    []*Clause // global assumptions (axioms), listed in trusted base
+	Files      []string
+	Decls      map[string]string // pkgpath.Type.field -> declaration (guarded_by L / immutable / owner)
+	DeclsRaw   map[string]string
+	Frames     map[string][]string
+	Templates  map[string]*Template
+	LockInvs   map[string]*Clause
 	GhostAttrs map[string][2]string
 }
 
